@@ -331,3 +331,15 @@ mod tests {
         }
     }
 }
+
+#[cfg(xray_verif)]
+impl FencedString {
+    /// (number of chars in the buffer, bytes in the buffer, the char-start table)
+    pub(crate) fn verif_repr(&self) -> (usize, usize, Vec<usize>) {
+        (
+            self.buffer.chars().count(),
+            self.buffer.len(),
+            self.char_starts.clone(),
+        )
+    }
+}
